@@ -597,7 +597,7 @@ func run(tier string, shard, nsh int, res *ev.Result) {
 		})
 	}
 	if shard == 0 {
-		jobs = append(jobs, func(lc *local) { namesCheck(res, lc) })
+		jobs = append(jobs, func(lc *local) { namesCheck(res, lc); reuseCheck(res, lc) })
 	}
 	var mu sync.Mutex
 	var tot local
@@ -626,6 +626,10 @@ func replay(check string, raw json.RawMessage, res *ev.Result) {
 		var c NameCase
 		json.Unmarshal(raw, &c)
 		var lc local
+		if c.Path == "reuse" {
+			reuseCheck(res, &lc)
+			return
+		}
 		evalNames(c, res, &lc)
 		return
 	}
